@@ -1563,7 +1563,19 @@ def running_opts(case):
     return run
 
 
+def double_bound(case):
+    """the CALL is ill-formed: a positional-or-keyword parameter bound by position is given again by keyword"""
+    if case.get("kind") != "func":
+        return False
+    pos = [p for p in case["params"] if p["kind"] != "ko"]
+    bound = {p["id"] for p in pos[:len(case["args"])] if p["kind"] == "pk"}
+    km = case.get("key_model", {})
+    return any(km.get(str(k), k) in bound for k, _ in case["kwargs"])
+
+
 def _must_fail_func(case):
+    if double_bound(case):
+        return None
     """decorated function: a typed parameter (positional, keyword, or an item of the typed *args tail) under the throw
     policy is given a token its type refuses => the call must end in a ParseError before the body"""
     o = case.get("opts", {})
@@ -1643,6 +1655,7 @@ def must_fail(case):
 def gen_disc(rng, o):
     """a real discriminated union field; the model sees the lookup / to_dict outcomes as scripted components"""
     form = rng.choice(["a", "zzz", "unhashable", "int", "str", "none", "missing"])
+    o["invalid_values"] = rng.choice(POLICIES)      # an invalid value of a discriminated field follows the field's policy
     f = {"id": 0, "aliases": [0], "t": 1, "on_error": None, "required": True, "default": None, "disc": True, "disc_real": True}
     case = {"kind": "schema", "entry": "init", "fields": [f], "opts": o, "str_keys": True, "addition_t": None,
             "novalue": True, "form": form, "script": []}
@@ -1723,6 +1736,9 @@ def gen_func(rng):
     kw = [k for k in names if rng.random() < 0.6] + [k for k in (50, 51) if rng.random() < 0.25]
     # the name of a positional-only parameter passed by keyword is an ordinary additional key
     kw += [p["id"] for p in ps if p["kind"] == "po" and rng.random() < 0.12]
+    if rng.random() < 0.08 and nargs:
+        # an ill-formed call: a parameter bound by position is given again by keyword (Python's own TypeError)
+        kw += [p["id"] for p in [q for q in ps if q["kind"] == "pk"][:1] if p["id"] in given]
     if rng.random() < 0.2:
         extra = add_ci_names(rng, case, ps, for_func=True)
         # a letter-case variant only for a parameter that is not given positionally (double binding is Python's TypeError)
@@ -2452,6 +2468,8 @@ class C04(Check):
             name = io["info"].get("name") or OTHER_NAMES.get(io["info"]["cls"], io["info"]["cls"])
             if io.get("hook_raised") or io.get("body_raised"):
                 return None            # developer code raised it
+            if double_bound(case) and io["info"]["cls"] == 100 and not io.get("body"):
+                return None            # the call itself is ill-formed: Python's "got multiple values for argument"
             if case["kind"] == "hostile" and self._proviso(case):
                 return None
             return f"an exception that is not a ParseError escaped: {name} {io['info'].get('where', '')}"
